@@ -434,9 +434,13 @@ Definition part_finalize (p : part) (tracks : list trk) (stracks : list nat) (en
               ({| p_id := p_id p; p_start := p_start p; p_end := endDTS; p_indep := p_indep p;
                   p_hastrack := false; p_base := 0; p_samples := [] |}, tracks)
           end
-      | None => (p, tracks)
+      | None =>
+          ({| p_id := p_id p; p_start := p_start p; p_end := endDTS; p_indep := p_indep p;
+              p_hastrack := false; p_base := 0; p_samples := [] |}, tracks)
       end
-  | [] => (p, tracks)
+  | [] =>
+      ({| p_id := p_id p; p_start := p_start p; p_end := endDTS; p_indep := p_indep p;
+          p_hastrack := false; p_base := 0; p_samples := [] |}, tracks)
   end.
 
 (* ---- stream-level components of the rotations (pure functions of the stream) ---- *)
@@ -572,48 +576,45 @@ Definition leading_index (m : mstate) : nat :=
     end in
   go O (m_streams m).
 
-Definition nonleading_indices (m : mstate) : list nat :=
-  filter (fun i => match nth_error (m_streams m) i with
-                   | Some s => negb (st_leading s) | None => false end)
-         (seq 0 (length (m_streams m))).
-
 Definition leading_stream (m : mstate) : option stream := nth_error (m_streams m) (leading_index m).
+
+(* "for _, stream := range m.streams { if !stream.isLeading { rotate; copy the leading stream's
+   target durations } }" *)
+Definition copy_targets (both : bool) (l : stream) (s : stream) : stream :=
+  if st_leading s then s
+  else
+    let x := st_mut s in
+    st_with s {| x_nextSeg := x_nextSeg x; x_nextPart := x_nextPart x;
+                 x_segments := x_segments x; x_open := x_open x;
+                 x_openpart := x_openpart x; x_init := x_init x;
+                 x_delcount := x_delcount x;
+                 x_target := if both then st_target l else x_target x;
+                 x_parttarget := st_parttarget l; x_evicted := x_evicted x |}.
+
+Definition rotate_others (m1 : mstate) (f : mstate -> nat -> mstate) (both : bool) : mstate :=
+  fold_left (fun m i =>
+               match nth_error (m_streams m) i with
+               | Some s =>
+                   if st_leading s then m
+                   else
+                     let m' := f m i in
+                     match leading_stream m' with
+                     | Some l => upd_stream m' i (copy_targets both l)
+                     | None => m'
+                     end
+               | None => m
+               end)
+            (seq 0 (length (m_streams m1))) m1.
 
 (* Muxer.rotatePartsInner *)
 Definition rotateParts (m : mstate) (nextDTS : Z) : mstate :=
-  let li := leading_index m in
-  let m1 := stream_rotateParts m li nextDTS true in
-  fold_left (fun m i =>
-               let m' := stream_rotateParts m i nextDTS true in
-               match leading_stream m' with
-               | Some l => upd_stream m' i (fun s =>
-                   let x := st_mut s in
-                   st_with s {| x_nextSeg := x_nextSeg x; x_nextPart := x_nextPart x;
-                                x_segments := x_segments x; x_open := x_open x;
-                                x_openpart := x_openpart x; x_init := x_init x;
-                                x_delcount := x_delcount x; x_target := x_target x;
-                                x_parttarget := st_parttarget l; x_evicted := x_evicted x |})
-               | None => m'
-               end)
-            (nonleading_indices m1) m1.
+  rotate_others (stream_rotateParts m (leading_index m) nextDTS true)
+                (fun m i => stream_rotateParts m i nextDTS true) false.
 
 (* Muxer.rotateSegmentsInner *)
 Definition rotateSegments (m : mstate) (nextDTS nextNTP : Z) (force : bool) : mstate :=
-  let li := leading_index m in
-  let m1 := stream_rotateSegments m li nextDTS nextNTP force in
-  fold_left (fun m i =>
-               let m' := stream_rotateSegments m i nextDTS nextNTP force in
-               match leading_stream m' with
-               | Some l => upd_stream m' i (fun s =>
-                   let x := st_mut s in
-                   st_with s {| x_nextSeg := x_nextSeg x; x_nextPart := x_nextPart x;
-                                x_segments := x_segments x; x_open := x_open x;
-                                x_openpart := x_openpart x; x_init := x_init x;
-                                x_delcount := x_delcount x; x_target := st_target l;
-                                x_parttarget := st_parttarget l; x_evicted := x_evicted x |})
-               | None => m'
-               end)
-            (nonleading_indices m1) m1.
+  rotate_others (stream_rotateSegments m (leading_index m) nextDTS nextNTP force)
+                (fun m i => stream_rotateSegments m i nextDTS nextNTP force) true.
 
 (* ---------------------------------------------------------------- fMP4 sample path *)
 Definition fmp4AdjustPartDuration (m : mstate) (sampleDuration : Z) : mstate :=
